@@ -125,6 +125,15 @@ PROPS["C10"] = {
     "explanation": "partial by proof",
 }
 OP_PROPS["conc.round"] = ["C10"]
+OP_PROPS["gmap.ops"] = ["C18"]
+PROPS["C18"] = {
+    "domains": [{"name": "rfl", "n_quick": 2500, "n_thorough": 60000},
+                {"name": "val", "n_quick": 1500, "n_thorough": 30000}],
+    "lean_modules": ["SMD.Properties.C18"],
+    "theorems": [],
+    "assumptions": ["partial: encoding/json, jsoniter and goyaml are external libraries; the agreement of reflection with the JSON round trip is decided by the rfl domain on run-time generated types (embedded structs carry the inline option, no uint64, no omitzero, float values exactly representable), not by a theorem; the theorems cover the contract of the generic map interface on the abstract value"],
+    "explanation": "partial by proof",
+}
 
 HOOK_COMMITS = []
 NOT_APPLICABLE = {}
